@@ -11,6 +11,7 @@ enum JobFlags : uint32_t {
     JF_TRACE = 4,         // print every schedule point to stderr
     JF_NO_FAULTS = 8,     // scheduler-level faults disabled
     JF_FAST = 16,         // informational: flavour
+    JF_SHORT_ALARM = 256, // minimisation runs: a run without schedule points (native endless loop) is cut after 12 s of wall time
 };
 
 constexpr uint32_t MAX_TAPE = 1u << 16;
